@@ -22,7 +22,7 @@ def sigma(name, sd=None):
 PLAN = {
     'quick': [('full', 3), ('core', 3), ('min', 4)],
     'mid': [('full', 3), ('core', 4)],
-    'thorough': [('full', 3), ('core', 5), ('min', 6)],
+    'thorough': [('full', 3), ('core', 4), ('min', 5)],
     'deep': [('full', 4), ('core', 4), ('min', 5)],
     'tiny': [('core', 3)],
 }
